@@ -8,11 +8,47 @@ import (
 
 func init() {
 	register("C11", []string{".", "./record", "./wal"}, runC11)
-	propExplain["C11"] = "Decides structural clauses of C11: a WAL is closed (fatal on error) before its successor is created, so only the last WAL may end uncleanly; Open classifies exactly the last WAL as non-strict (strictWALTail = i < len-1); replay tolerates only EOF-class read errors and applies a batch only if it was read and decoded without error (C19.S1); every version edit carries LastSeqNum taken from the next sequence number before it is encoded; a sync acknowledgement covers the bytes it claims (C20.O1/O2) and corruption of synced data is confirmed and reported (C19.O1/G2, C18). Does not decide de-duplication by sequence number across segments or the prefix property itself."
+	propExplain["C11"] = "Decides structural clauses of C11: a WAL is closed (fatal on error) before its successor is created, so only the last WAL may end uncleanly; Open classifies exactly the last WAL as non-strict (strictWALTail = i < len-1); replay tolerates only EOF-class read errors and applies a batch only if it was read and decoded without error (C19.S1); every version edit carries LastSeqNum taken from the next sequence number before it is encoded; a sync acknowledgement covers the bytes it claims (C20.O1/O2) and corruption of synced data is confirmed and reported (C19.O1/G2, C18). (O4) newFlushableBatch takes the batch's sequence number before it fragments the batch's range deletions and range keys (a large batch replayed from the WAL). Does not decide de-duplication by sequence number across segments or the prefix property itself."
 	propTechnique["C11"] = "SSA error-gated dominance, value provenance, obligation-as-fact dataflow (shared C18/C19/C20 rules)"
 }
 
 func runC11(c *Ctx) {
+	// C11.O4: a large batch replayed from the WAL becomes a flushable batch whose header already
+	// carries its sequence number; newFlushableBatch takes it BEFORE it fragments the batch's range
+	// deletions / range keys (the fragments are built relative to b.seqNum) — otherwise the
+	// recovered point keys get their real sequence numbers and the range operations sequence
+	// numbers near zero: the batch is recovered in part.
+	if fn := c.Fn("C11.O4", "p.newFlushableBatch"); fn != nil {
+		seqF := c.Field("C11.O4", "p.flushableBatch.seqNum")
+		dataF := c.Field("C11.O4", "p.flushableBatch.data")
+		noData := func(v ssa.Value) (bool, bool) {
+			bo, ok := v.(*ssa.BinOp)
+			if !ok || (bo.Op != token.EQL && bo.Op != token.NEQ) {
+				return false, false
+			}
+			var x ssa.Value
+			switch {
+			case isNilConst(bo.Y):
+				x = bo.X
+			case isNilConst(bo.X):
+				x = bo.Y
+			default:
+				return false, false
+			}
+			if !isLoadOfField(x, dataF) {
+				return false, false
+			}
+			return true, bo.Op == token.NEQ
+		}
+		fl := NewFlow(c.P).After("seqnum-taken", StoreTo(seqF)).Edge("no-data", noData).
+			Derive("seqnum-taken|no-data", []string{"seqnum-taken"}, []string{"no-data"})
+		fl.MaxDepth = 0
+		res := fl.Analyze(fn, emptyState())
+		c.noteFlow(fl)
+		if n := c.Require("C11.O4", res, CallTo("p.fragmentRangeDels", "p.fragmentRangeKeys"), "the batch's sequence number is taken before its range fragments are built", []string{"seqnum-taken|no-data"}); n < 2 {
+			c.Unresolved("C11.O4", "fragmentRangeDels / fragmentRangeKeys calls not found in newFlushableBatch")
+		}
+	}
 	// O1
 	if fn := c.Fn("C11.O1", "p.(*DB).rotateWAL"); fn != nil {
 		c.Chain("C11.O1", fn, nil,
